@@ -83,8 +83,26 @@ def base_c():
     return gen.base_doc(S, paths=P, version="3.0.3", components=comps)
 
 
-BASES = {"A": base_a, "B": base_b, "C": base_c}
-ENUM_OF = {"A": "E", "B": "K", "C": "Kind"}
+def base_d():
+    """Path items with several operations, each owning inline classes (inline enum parameter, inline object body / response)."""
+    S = {"Item": {"type": "object", "properties": {"id": {"type": "integer"}, "state": ref("State")}}, "State": {"type": "string", "enum": ["on", "off"]}}
+    iobj = lambda **p: {"type": "object", "properties": p}  # noqa: E731
+    ok = lambda sch: {"200": {"description": "ok", "content": {"application/json": {"schema": sch}}}}  # noqa: E731
+    sort = lambda: {"name": "sort", "in": "query", "schema": {"type": "string", "enum": ["asc", "desc"]}}  # noqa: E731
+    P = {"/items": {"get": {"operationId": "listItems", "parameters": [sort()], "responses": ok(iobj(items={"type": "array", "items": ref("Item")}, total={"type": "integer"}))},
+                    "put": {"operationId": "replaceItems", "requestBody": {"content": {"application/json": {"schema": iobj(all={"type": "array", "items": ref("Item")})}}}, "responses": {"204": {"description": "n"}}},
+                    "post": {"operationId": "createItem", "requestBody": {"content": {"application/json": {"schema": iobj(name={"type": "string"}, mode={"type": "string", "enum": ["m1", "m2"]})}}},
+                             "responses": ok(ref("Item"))},
+                    "delete": {"operationId": "purgeItems", "parameters": [{"name": "older", "in": "query", "schema": {"type": "string", "enum": ["day", "week"]}}], "responses": {"204": {"description": "n"}}}},
+         "/items/{id}": {"parameters": [{"name": "id", "in": "path", "required": True, "schema": {"type": "integer"}}],
+                         "get": {"operationId": "getItem", "responses": ok(iobj(item=ref("Item"), etag={"type": "string"}))},
+                         "patch": {"operationId": "patchItem", "requestBody": {"content": {"application/json": {"schema": iobj(state=ref("State"))}}}, "responses": ok(ref("Item"))}},
+         "/plain": {"get": {"operationId": "getPlain", "responses": {"204": {"description": "n"}}}}}
+    return gen.base_doc(S, paths=P)
+
+
+BASES = {"A": base_a, "B": base_b, "C": base_c, "D": base_d}
+ENUM_OF = {"A": "E", "B": "K", "C": "Kind", "D": "State"}
 MARKERS = {"dangling-ref": "Nope", "remote-ref": "remote.example", "bad-default": "zz"}
 
 BAD_SCHEMAS = {
